@@ -2525,7 +2525,17 @@ fn convert_value_to_type2<'a>(
         // Remove quotes
         let text_content = &text[1..text.len() - 1];
         // Handle escape sequences
-        let unescaped = unescape_text(text_content);
+        let (unescaped, valid) = unescape_text_checked(text_content);
+        if !valid {
+          return Err(Error::PARSER {
+            position: pest_span_to_position(&inner.as_span(), input),
+            msg: ErrorMsg {
+              short: "Invalid text string: an escape does not denote a Unicode scalar value"
+                .to_string(),
+              extended: None,
+            },
+          });
+        }
         return Ok(ast::Type2::TextValue {
           value: Cow::Owned(unescaped),
           span,
@@ -2562,7 +2572,16 @@ fn convert_value_to_type2<'a>(
         // Remove quotes
         let text_content = &text[1..text.len() - 1];
         // Handle escape sequences
-        let unescaped = unescape_text(text_content);
+        let (unescaped, valid) = unescape_text_checked(text_content);
+        if !valid {
+          return Err(Error::PARSER {
+            msg: ErrorMsg {
+              short: "Invalid text string: an escape does not denote a Unicode scalar value"
+                .to_string(),
+              extended: None,
+            },
+          });
+        }
         return Ok(ast::Type2::TextValue {
           value: Cow::Owned(unescaped),
         });
@@ -2582,9 +2601,21 @@ fn convert_value_to_type2<'a>(
   })
 }
 
-/// Unescape text value (supports RFC 9682 \u{hex} escapes and surrogate pairs)
+/// Unescape text value (supports RFC 9682 \u{hex} escapes and surrogate pairs).
+/// Escapes that do not denote a Unicode scalar value are dropped; use
+/// `unescape_text_checked` to learn whether that happened.
+#[cfg(test)]
 fn unescape_text(text: &str) -> String {
+  unescape_text_checked(text).0
+}
+
+/// Unescape a text value. The flag is false when some escape does not denote a
+/// Unicode scalar value (a lone or reversed `\uXXXX` surrogate, a `\u{...}`
+/// above 10FFFF or in the surrogate range): such a literal has no value and
+/// must be rejected rather than silently shortened.
+fn unescape_text_checked(text: &str) -> (String, bool) {
   let mut result = String::new();
+  let mut valid = true;
   let mut chars = text.chars();
 
   while let Some(ch) = chars.next() {
@@ -2607,37 +2638,43 @@ fn unescape_text(text: &str) -> String {
               // Consume the '{'
               chars.next();
               let hex: String = chars.by_ref().take_while(|c| *c != '}').collect();
-              if let Ok(code_point) = u32::from_str_radix(&hex, 16) {
-                if let Some(unicode_char) = char::from_u32(code_point) {
-                  result.push(unicode_char);
-                }
+              match u32::from_str_radix(&hex, 16).ok().and_then(char::from_u32) {
+                Some(unicode_char) => result.push(unicode_char),
+                None => valid = false,
               }
             } else {
               // Standard \uXXXX form
               let hex: String = chars.by_ref().take(4).collect();
-              if let Ok(code_point) = u32::from_str_radix(&hex, 16) {
-                // Check for surrogate pair: \uHHHH\uLLLL
-                if (0xD800..=0xDBFF).contains(&code_point) {
-                  // High surrogate - look for \uLLLL
+              match u32::from_str_radix(&hex, 16) {
+                Ok(code_point) if (0xD800..=0xDBFF).contains(&code_point) => {
+                  // High surrogate - must be followed by \uLLLL with a low surrogate
+                  let mut paired = false;
                   let mut peekable2 = chars.clone();
                   if peekable2.next() == Some('\\') && peekable2.next() == Some('u') {
-                    // Consume \u
-                    chars.next();
-                    chars.next();
-                    let low_hex: String = chars.by_ref().take(4).collect();
+                    let low_hex: String = peekable2.by_ref().take(4).collect();
                     if let Ok(low_surrogate) = u32::from_str_radix(&low_hex, 16) {
                       if (0xDC00..=0xDFFF).contains(&low_surrogate) {
                         let combined =
                           0x10000 + ((code_point - 0xD800) << 10) + (low_surrogate - 0xDC00);
                         if let Some(unicode_char) = char::from_u32(combined) {
                           result.push(unicode_char);
+                          paired = true;
+                          // Consume the \uLLLL that was just read
+                          chars = peekable2;
                         }
                       }
                     }
                   }
-                } else if let Some(unicode_char) = char::from_u32(code_point) {
-                  result.push(unicode_char);
+                  if !paired {
+                    valid = false;
+                  }
                 }
+                Ok(code_point) => match char::from_u32(code_point) {
+                  Some(unicode_char) => result.push(unicode_char),
+                  // a low surrogate without a preceding high surrogate
+                  None => valid = false,
+                },
+                Err(_) => valid = false,
               }
             }
           }
@@ -2652,7 +2689,7 @@ fn unescape_text(text: &str) -> String {
     }
   }
 
-  result
+  (result, valid)
 }
 
 /// Convert number to Type2
